@@ -81,7 +81,8 @@ struct Demand {
     /// the member set is defined by the statement (false only for rings with one token owned twice)
     set: bool,
     ordered: OrderedDemand,
-    /// also drive choose_filtered with a rejecting predicate
+    /// deep examination (on the on-the-fly locator; these paths do not depend on precomputation):
+    /// choose_filtered with a rejecting predicate, nth on partly consumed iterators
     reject: bool,
 }
 
@@ -137,6 +138,18 @@ fn examine(tally: &mut Tally, loc: &ReplicaLocator, strategy: &Strategy, token: 
             let (wa, wb) = (iter.get(k).copied(), if k < iter.len() { iter.get(k + 1).copied() } else { None });
             if a != wa || b != wb {
                 return Some(format!("nth({k}) then next() = ({a:?}, {b:?}); iteration {iter:?} says ({wa:?}, {wb:?})"));
+            }
+        }
+        // a partly consumed iterator: nth(a) then nth(b) is element a+b+1
+        for a in 0..if demand.reject { iter.len() } else { 0 } {
+            for b in 0..=iter.len() - a {
+                let mut it = fresh().into_iter();
+                let x = it.nth(a).map(|(n, _)| idx(n));
+                let y = it.nth(b).map(|(n, _)| idx(n));
+                let (wx, wy) = (iter.get(a).copied(), iter.get(a + b + 1).copied());
+                if x != wx || y != wy {
+                    return Some(format!("nth({a}) then nth({b}) = ({x:?}, {y:?}); iteration {iter:?} says ({wx:?}, {wy:?})"));
+                }
             }
         }
         None
@@ -406,7 +419,7 @@ fn replay(env: &Env, case: &Value) {
 fn params_for(t: &Topo, thorough: bool) -> Params {
     let (slots, nodes) = (t.slots(), t.n());
     if thorough {
-        let heavy = slots >= 6 && nodes >= 4 || nodes >= 5;
+        let heavy = slots >= 6 && nodes >= 4 || nodes >= 5 || slots >= 7;
         Params {
             family: if heavy { Family { rf_extra: 1, absent_rfs: vec![1] } } else { Family { rf_extra: 2, absent_rfs: vec![0, 1, 2] } },
             sparse_variants: 2,
@@ -451,13 +464,15 @@ fn main() {
     }
     let thorough = r.tier().is_thorough();
     let bounds = if thorough {
-        EnumBounds { max_slots: 6, max_nodes: 5, max_dcs: 3, max_racks: 3, extremes_upto_slots: 4, dup_upto_slots: 4 }
+        // <= 5 slots: up to 5 nodes; 6 slots: up to 4 nodes; 7 slots (vnode-heavy): up to 3 nodes
+        EnumBounds { max_slots: 7, max_nodes: 5, max_dcs: 3, max_racks: 3, extremes_upto_slots: 4, dup_upto_slots: 4, node_cap: |t| if t <= 5 { 5 } else if t == 6 { 4 } else { 3 } }
     } else {
-        EnumBounds { max_slots: 5, max_nodes: 4, max_dcs: 3, max_racks: 3, extremes_upto_slots: 3, dup_upto_slots: 3 }
+        EnumBounds { max_slots: 5, max_nodes: 4, max_dcs: 3, max_racks: 3, extremes_upto_slots: 3, dup_upto_slots: 3, node_cap: |_| usize::MAX }
     };
     let topos = topo::enumerate(&bounds);
     let n_topos = topos.len();
-    let spellings: &[usize] = if thorough { &[0, 1] } else { &[0] };
+    // the second name spelling (shakes hash-map iteration orders) is spent on the rings with <= 4 slots
+    let spellings_for = |t: &Topo| -> &'static [usize] { if thorough && t.slots() <= 4 { &[0, 1] } else { &[0] } };
     if r.args.has_flag("--count") {
         println!("topologies: {n_topos}");
         let mut by: BTreeMap<(usize, usize, usize), (u64, u64)> = Default::default();
@@ -492,7 +507,7 @@ fn main() {
     let env_ref = &env;
     vcore::par::for_each(r.args.jobs, 2, topos.iter().enumerate(), |(i, t)| {
         let p = params_for(t, thorough);
-        for &sp in spellings {
+        for &sp in spellings_for(t) {
             let names = &SPELLINGS[sp];
             let c = t.concrete(names);
             run_topology(env_ref, &c, names.absent_dc, i as u64, &p, None);
@@ -510,7 +525,7 @@ fn main() {
         "bounds",
         json!({"max_token_slots": bounds.max_slots, "max_nodes": bounds.max_nodes, "max_dcs": bounds.max_dcs, "max_racks_per_dc": bounds.max_racks,
         "strategy_family": "Local, Other, Simple RF 0..nodes+e, NTS: every RF 0..dc size+e on every subset of ring DCs x {no entry | RF in A} for one DC absent from the ring; (e, A) by topology class - see params_for()",
-        "name_spellings": spellings.len()}),
+        "name_spellings": if thorough { "2 for rings with <= 4 slots, 1 above" } else { "1" }, "node_cap_by_slots": if thorough { "<=5 slots: 5 nodes; 6 slots: 4 nodes; 7 slots: 3 nodes" } else { "none" }}),
     );
     r.set_rule("E-ENUM. evaluations = (topology, strategy, query token) triples; for each, the unrestricted replica set and one per datacenter (ring DCs, a DC absent from the ring, for small rings also a never-mentioned DC) is examined through len/is_empty, iteration, nth+next, choose_filtered (owned RNG: every index, and a predicate rejecting each member), ring-ordered view, on 3+ locators (nothing / everything / sparse sets precomputed), plus get_token_endpoints by keyspace name; compared with cqlref::placement. Topologies: every canonical (slot sequence x dc/rack placement incl. DC-less and rack-less nodes) within bounds, plus boundary-token and duplicate-token layouts for the small ones, plus the repo's pinned 7-node ring. distinct_nontrivial = triples whose placement has >= 2 nodes and is not the plain ring prefix of that length.");
     r.set_exhaustive(true);
